@@ -256,6 +256,13 @@ fn mutations(t: &Tree) -> Vec<Value> {
         for what in ["missing", "Foo", "swap", "int"] {
             out.push(json!({"m": "type", "node": i, "what": what}));
         }
+        // Parent pointers that disagree with Kids (the enumeration follows Kids)
+        for what in ["missing", "self", "root", "first_page", "catalog", "dangling", "wrong_gen", "int"] {
+            if i == 0 && what == "missing" {
+                continue; // the root has none
+            }
+            out.push(json!({"m": "parent", "node": i, "what": what}));
+        }
         if !t.is_pages(i) {
             continue;
         }
@@ -268,8 +275,19 @@ fn mutations(t: &Tree) -> Vec<Value> {
             for j in 0..l {
                 out.push(json!({"m": "kid_insert", "node": i, "pos": pos, "what": "dup", "arg": j}));
             }
-            for what in ["self", "int", "dict", "dangling", "null", "catalog", "page_stream", "pages_stream", "ref_to_int", "ref_to_array"] {
+            for what in ["self", "int", "dict", "dangling", "null", "catalog", "page_stream", "pages_stream", "ref_to_int", "ref_to_array", "wrong_gen_catalog"] {
                 out.push(json!({"m": "kid_insert", "node": i, "pos": pos, "what": what}));
+            }
+            for j in 0..n {
+                // a node that is neither this one, nor an ancestor, nor one of its kids: a node with two parents
+                if j != i && !anc.contains(&j) && !t.kids[i].contains(&j) {
+                    out.push(json!({"m": "kid_insert", "node": i, "pos": pos, "what": "other", "arg": j}));
+                }
+                // the right object number with a generation no object has: such a reference names nothing
+                out.push(json!({"m": "kid_insert", "node": i, "pos": pos, "what": "wrong_gen", "arg": j, "gen": 1}));
+            }
+            if let Some(fp) = first_page {
+                out.push(json!({"m": "kid_insert", "node": i, "pos": pos, "what": "wrong_gen", "arg": fp, "gen": 65535}));
             }
         }
         for pos in 0..l {
@@ -281,8 +299,19 @@ fn mutations(t: &Tree) -> Vec<Value> {
                     out.push(json!({"m": "kid_replace", "node": i, "pos": pos, "what": "dup", "arg": j}));
                 }
             }
-            for what in ["self", "int", "dict", "dangling", "null", "catalog", "page_stream", "pages_stream", "ref_to_int", "ref_to_array"] {
+            for what in ["self", "int", "dict", "dangling", "null", "catalog", "page_stream", "pages_stream", "ref_to_int", "ref_to_array", "wrong_gen_catalog"] {
                 out.push(json!({"m": "kid_replace", "node": i, "pos": pos, "what": what}));
+            }
+            // the kid itself under a stale generation (2 R, 65535 R), and this node, the root, the first page under generation 1
+            let kid = t.kids[i][pos];
+            out.push(json!({"m": "kid_replace", "node": i, "pos": pos, "what": "wrong_gen", "arg": kid, "gen": 2}));
+            out.push(json!({"m": "kid_replace", "node": i, "pos": pos, "what": "wrong_gen", "arg": kid, "gen": 65535}));
+            let mut js = vec![kid, i, 0];
+            js.extend(first_page);
+            js.sort();
+            js.dedup();
+            for j in js {
+                out.push(json!({"m": "kid_replace", "node": i, "pos": pos, "what": "wrong_gen", "arg": j, "gen": 1}));
             }
         }
         for what in ["missing", "int", "dict", "ref_to_dict", "dangling", "nested_array"] {
@@ -349,6 +378,9 @@ fn apply_mutation(t: &Tree, b: &mut Built, m: &Value) {
                 "ancestor" => Object::Reference(b.node[arg.unwrap()]),
                 "dup" => Object::Reference(b.node[t.kids[i][arg.unwrap()]]),
                 "self" => Object::Reference(b.node[i]),
+                "other" => Object::Reference(b.node[arg.unwrap()]),
+                "wrong_gen" => Object::Reference((b.node[arg.unwrap()].0, m["gen"].as_u64().unwrap_or(1) as u16)),
+                "wrong_gen_catalog" => Object::Reference((b.cat.0, 1)),
                 "int" => Object::Integer(5),
                 "dict" => Object::Dictionary(page),
                 "dangling" => dangling,
@@ -380,6 +412,28 @@ fn apply_mutation(t: &Tree, b: &mut Built, m: &Value) {
                 kids.insert(pos, val);
             } else {
                 kids[pos] = val;
+            }
+        }
+        "parent" => {
+            let i = node.unwrap();
+            let first_page = (0..t.len()).find(|i| t.kind[*i] == Kind::Page);
+            let val = match what {
+                "missing" => None,
+                "self" => Some(Object::Reference(b.node[i])),
+                "root" => Some(Object::Reference(b.node[0])),
+                "first_page" => Some(Object::Reference(b.node[first_page.unwrap_or(0)])),
+                "catalog" => Some(Object::Reference(b.cat)),
+                "dangling" => Some(dangling),
+                "wrong_gen" => Some(Object::Reference((b.node[t.parent[i].unwrap_or(0)].0, 1))),
+                "int" => Some(Object::Integer(4)),
+                _ => machinery("unknown parent mutation"),
+            };
+            let d = dict_mut(&mut b.doc, b.node[i]);
+            match val {
+                Some(v) => d.set("Parent", v),
+                None => {
+                    d.remove(b"Parent");
+                }
             }
         }
         "kids" => {
@@ -641,7 +695,8 @@ fn validate_numbering(doc: &Document, m: &BTreeMap<u32, ObjectId>) -> Result<(),
     Ok(())
 }
 
-fn check_valid(doc: &Document, want: &[ObjectId], max_calls: &AtomicU64) -> Result<(), String> {
+/// The step-by-step enumeration and get_pages() against the expected leaf list.
+fn check_valid_basic(doc: &Document, want: &[ObjectId], max_calls: &AtomicU64) -> Result<(), String> {
     let got = check_lenient(doc, max_calls)?;
     if got != want {
         return Err(format!("page_iter yields {}, depth-first left-to-right leaf pages are {}", ids_str(&got), ids_str(want)));
@@ -652,6 +707,170 @@ fn check_valid(doc: &Document, want: &[ObjectId], max_calls: &AtomicU64) -> Resu
         return Err(format!("get_pages is {:?}, expected the leaf pages numbered 1..{}: {}", m, want.len(), ids_str(want)));
     }
     Ok(())
+}
+
+/// check_valid_basic plus every other form of the same enumeration.
+fn check_valid(doc: &Document, want: &[ObjectId], max_calls: &AtomicU64) -> Result<(), String> {
+    check_valid_basic(doc, want, max_calls)?;
+    check_forms(doc, want, true, true, &|_| {})
+}
+
+/// Malformed tree, in process: the step-by-step run (termination, only page objects), then every other form.
+fn check_lenient_all(doc: &Document, max_calls: &AtomicU64, collecting: bool) -> Result<Vec<ObjectId>, String> {
+    let got = check_lenient(doc, max_calls)?;
+    check_forms(doc, &got, false, collecting, &|_| {})?;
+    Ok(got)
+}
+
+const FORMS: [&str; 11] = ["for", "size_hint_around_every_next", "count", "last", "nth(k)", "nth(1)_repeated", "collect_vec", "extend_vec", "next_k_times_then_collect", "get_pages", "next_after_none"];
+
+/// The same enumeration through every form a caller uses: `for`, size_hint() before and after
+/// every next(), count(), last(), nth(k) for every k, nth(1) repeated on one iterator, and - when
+/// `collecting` - collect::<Vec>, Vec::extend, k x next() followed by collect, get_pages(). Every
+/// form must give what the step-by-step run `stepped` gave. `exact` (well-formed tree with correct
+/// Counts): size_hint() must enclose the number of pages still to come; otherwise it only has to
+/// return with lower <= upper. `stage` is told which form starts (a child process reports it, so
+/// that a form that never returns can be named).
+fn check_forms(doc: &Document, stepped: &[ObjectId], exact: bool, collecting: bool, stage: &dyn Fn(&str)) -> Result<(), String> {
+    let n = stepped.len();
+    let cap = doc.objects.len() + 2;
+    let differs = |form: &str, got: &str| format!("{} gives {} but stepping with next() gave {}", form, got, ids_str(stepped));
+    stage(FORMS[0]);
+    let got = util::guard(|| {
+        let mut v = vec![];
+        for id in doc.page_iter() {
+            v.push(id);
+            if v.len() > cap {
+                break;
+            }
+        }
+        v
+    })
+    .map_err(|e| format!("for id in page_iter(): {}", e))?;
+    if got != stepped {
+        return Err(differs("for id in page_iter()", &ids_str(&got)));
+    }
+    stage(FORMS[1]);
+    // on very long lists size_hint() (linear in the pending kids) is asked at the ends and at every 97th step
+    let ask = |i: usize| n <= 2000 || i < 3 || i + 3 >= n || i % 97 == 0;
+    util::guard(|| -> Result<(), String> {
+        let mut it = doc.page_iter();
+        for i in 0..=n {
+            let remaining = n - i;
+            if ask(i) {
+                let (lo, hi) = it.size_hint();
+                if hi.is_some_and(|h| lo > h) {
+                    return Err(format!("size_hint() before next() #{} is ({}, {:?}): lower above upper", i + 1, lo, hi));
+                }
+                if exact && (lo > remaining || hi.is_some_and(|h| h < remaining)) {
+                    return Err(format!("size_hint() before next() #{} is ({}, {:?}) but {} pages are still to come (well-formed tree, correct Counts)", i + 1, lo, hi, remaining));
+                }
+            }
+            let x = it.next();
+            if x != stepped.get(i).copied() {
+                return Err(format!("next() #{} in a run with size_hint() calls in between gives {:?}, without them {:?}", i + 1, x, stepped.get(i)));
+            }
+        }
+        let (lo, hi) = it.size_hint();
+        if lo > 0 && exact {
+            return Err(format!("size_hint() after the end is ({}, {:?})", lo, hi));
+        }
+        Ok(())
+    })
+    .map_err(|e| format!("size_hint(): {}", e))??;
+    stage(FORMS[2]);
+    let c = util::guard(|| doc.page_iter().count()).map_err(|e| format!("page_iter().count(): {}", e))?;
+    if c != n {
+        return Err(differs("page_iter().count()", &c.to_string()));
+    }
+    stage(FORMS[3]);
+    let l = util::guard(|| doc.page_iter().last()).map_err(|e| format!("page_iter().last(): {}", e))?;
+    if l != stepped.last().copied() {
+        return Err(differs("page_iter().last()", &format!("{:?}", l)));
+    }
+    stage(FORMS[4]);
+    let ks: Vec<usize> = if n <= 40 { (0..=n + 1).collect() } else { vec![0, 1, 2, n / 2, n - 2, n - 1, n, n + 1] };
+    for k in ks {
+        let x = util::guard(|| doc.page_iter().nth(k)).map_err(|e| format!("page_iter().nth({}): {}", k, e))?;
+        if x != stepped.get(k).copied() {
+            return Err(differs(&format!("page_iter().nth({})", k), &format!("{:?}", x)));
+        }
+    }
+    stage(FORMS[5]);
+    let got = util::guard(|| {
+        let mut it = doc.page_iter();
+        let mut v = vec![];
+        while let Some(x) = it.nth(1) {
+            v.push(x);
+            if v.len() > cap {
+                break;
+            }
+        }
+        v
+    })
+    .map_err(|e| format!("nth(1) repeated: {}", e))?;
+    if got != stepped.iter().skip(1).step_by(2).cloned().collect::<Vec<_>>() {
+        return Err(differs("nth(1) repeated on one iterator (every second page)", &ids_str(&got)));
+    }
+    if collecting {
+        stage(FORMS[6]);
+        let got = util::guard(|| doc.page_iter().collect::<Vec<ObjectId>>()).map_err(|e| format!("page_iter().collect::<Vec<_>>(): {}", e))?;
+        if got != stepped {
+            return Err(differs("page_iter().collect::<Vec<_>>()", &ids_str(&got)));
+        }
+        stage(FORMS[7]);
+        let got = util::guard(|| {
+            let mut v: Vec<ObjectId> = Vec::new();
+            v.extend(doc.page_iter());
+            v
+        })
+        .map_err(|e| format!("Vec::extend(page_iter()): {}", e))?;
+        if got != stepped {
+            return Err(differs("Vec::extend(page_iter())", &ids_str(&got)));
+        }
+        stage(FORMS[8]);
+        let mut splits = vec![1usize, 2, n / 2, n.saturating_sub(1)];
+        splits.retain(|k| *k >= 1 && *k <= n);
+        splits.sort();
+        splits.dedup();
+        for k in splits {
+            let got = util::guard(|| {
+                let mut it = doc.page_iter();
+                for _ in 0..k {
+                    it.next();
+                }
+                it.collect::<Vec<ObjectId>>()
+            })
+            .map_err(|e| format!("{} x next() then collect(): {}", k, e))?;
+            if got != stepped[k..] {
+                return Err(format!("{} x next() then collect() gives {} but stepping with next() gave {}", k, ids_str(&got), ids_str(stepped)));
+            }
+        }
+        stage(FORMS[9]);
+        let m = util::guard(|| doc.get_pages()).map_err(|e| format!("get_pages(): {}", e))?;
+        let numbered: BTreeMap<u32, ObjectId> = stepped.iter().enumerate().map(|(i, p)| (i as u32 + 1, *p)).collect();
+        if m != numbered {
+            return Err(format!("get_pages() is {:?} but stepping with next() gave {}", m, ids_str(stepped)));
+        }
+    }
+    stage(FORMS[10]);
+    let again = util::guard(|| {
+        let mut it = doc.page_iter();
+        let mut left = cap;
+        while left > 0 && it.next().is_some() {
+            left -= 1;
+        }
+        (it.next(), it.next())
+    })
+    .map_err(|e| format!("next() after None: {}", e))?;
+    if left_some(&again) {
+        return Err(format!("next() after the first None yields again: {:?} (the iterator is declared fused)", again));
+    }
+    Ok(())
+}
+
+fn left_some(x: &(Option<ObjectId>, Option<ObjectId>)) -> bool {
+    x.0.is_some() || x.1.is_some()
 }
 
 // ---------------------------------------------------------------------------------------------
@@ -672,46 +891,63 @@ fn doc_of_case(case: &Value) -> (Document, Option<Tree>) {
             let t = c.tree();
             (build(&t, c.rev).doc, Some(t))
         }
+        Some("cyc") => (build_cyc(case), None),
         _ => machinery("unknown case kind"),
     }
 }
 
+/// CPU time one case may use in a child process before the child is killed (SIGPROF). The
+/// unchanged tree needs microseconds per case; CPU time rather than wall time so that a busy
+/// machine cannot turn a slow case into a verdict.
+const CASE_CPU_MS: i64 = 500;
+
+fn cpu_budget(ms: i64) {
+    let v = libc::itimerval { it_interval: libc::timeval { tv_sec: 0, tv_usec: 0 }, it_value: libc::timeval { tv_sec: ms / 1000, tv_usec: (ms % 1000) * 1000 } };
+    unsafe {
+        libc::setitimer(libc::ITIMER_PROF, &v, std::ptr::null_mut());
+    }
+}
+
+/// Child process: every form of the enumeration on every case of the file, each case under a CPU
+/// budget and the whole process under an address-space limit. Protocol on stdout: `B i` case i
+/// begins, `S i form` that form begins, `E i result` case i is done.
 fn child_main(file: &str, from: usize) -> ! {
     unsafe {
         let lim = libc::rlimit { rlim_cur: 2 << 30, rlim_max: 2 << 30 };
         libc::setrlimit(libc::RLIMIT_AS, &lim);
-        // a call that never returns ends the child with SIGALRM
+        // backstop in wall time for a call that blocks without using the CPU
         libc::alarm(120);
     }
     util::quiet_panics();
     let text = std::fs::read_to_string(file).unwrap_or_else(|e| machinery(&format!("child cannot read {}: {}", file, e)));
     use std::io::Write;
     let out = std::io::stdout();
+    let say = |line: String| {
+        let mut o = out.lock();
+        let _ = writeln!(o, "{}", line);
+        let _ = o.flush();
+    };
     for (i, line) in text.lines().enumerate().skip(from) {
         let case: Value = serde_json::from_str(line).unwrap_or_else(|e| machinery(&format!("child: bad case line: {}", e)));
         let (doc, _) = doc_of_case(&case);
-        {
-            let mut o = out.lock();
-            let _ = writeln!(o, "B {}", i);
-            let _ = o.flush();
-        }
-        let res = match util::guard(|| doc.get_pages()) {
-            Ok(m) => match validate_numbering(&doc, &m) {
-                Ok(()) => format!("ok {}", m.len()),
-                Err(e) => format!("bad {}", e),
-            },
-            Err(e) => format!("panic {}", e),
+        say(format!("B {}", i));
+        cpu_budget(CASE_CPU_MS);
+        say(format!("S {} next()_until_None", i));
+        let dummy = AtomicU64::new(0);
+        let res = match check_lenient(&doc, &dummy).and_then(|got| check_forms(&doc, &got, false, true, &|form| say(format!("S {} {}", i, form))).map(|_| got)) {
+            Ok(got) => format!("ok {}", got.len()),
+            Err(e) => format!("bad {}", e),
         };
-        let mut o = out.lock();
-        let _ = writeln!(o, "E {} {}", i, res.replace('\n', " "));
-        let _ = o.flush();
+        cpu_budget(0);
+        say(format!("E {} {}", i, res.replace('\n', " ")));
     }
     std::process::exit(0)
 }
 
-/// Run get_pages() of every case in child processes; a child that dies is restarted after the
-/// case it died on. Returns one outcome string per case: "ok n" | "bad .." | "panic .." | "died ..".
-fn run_in_children(cases: &[Value], label: &str) -> Vec<String> {
+/// Run every form of the enumeration of every case in child processes; a child that dies is restarted after the
+/// case it died on. Returns one outcome string per case: "ok n" | "bad .." | "died ..".
+/// After `max_deaths` dead children the remaining cases are not run: their outcome is "skipped".
+fn run_in_children(cases: &[Value], label: &str, max_deaths: usize) -> Vec<String> {
     let exe = std::env::current_exe().unwrap_or_else(|e| machinery(&format!("current_exe: {}", e)));
     let file = std::env::temp_dir().join(format!("c12-{}-{}.jsonl", std::process::id(), label));
     let text: String = cases.iter().map(|c| c.to_string() + "\n").collect();
@@ -719,7 +955,12 @@ fn run_in_children(cases: &[Value], label: &str) -> Vec<String> {
     let mut res: Vec<Option<String>> = vec![None; cases.len()];
     let mut from = 0usize;
     let mut spawns = 0;
+    let mut deaths = 0usize;
     while from < cases.len() {
+        if deaths >= max_deaths {
+            res.iter_mut().skip(from).for_each(|r| *r = Some("skipped".to_string()));
+            break;
+        }
         spawns += 1;
         if spawns > cases.len() + 2 {
             machinery("child restart loop");
@@ -730,9 +971,13 @@ fn run_in_children(cases: &[Value], label: &str) -> Vec<String> {
             .unwrap_or_else(|e| machinery(&format!("cannot start child: {}", e)));
         let stdout = String::from_utf8_lossy(&out.stdout);
         let mut begun: Option<usize> = None;
+        let mut form = String::new();
         for line in stdout.lines() {
             if let Some(r) = line.strip_prefix("B ") {
                 begun = r.trim().parse().ok();
+                form.clear();
+            } else if let Some(r) = line.strip_prefix("S ") {
+                form = r.splitn(2, ' ').nth(1).unwrap_or("").to_string();
             } else if let Some(r) = line.strip_prefix("E ") {
                 let mut it = r.splitn(2, ' ');
                 let i: usize = it.next().unwrap_or("").parse().unwrap_or(usize::MAX);
@@ -750,7 +995,8 @@ fn run_in_children(cases: &[Value], label: &str) -> Vec<String> {
             Some(i) if i < res.len() && res[i].is_none() => {
                 use std::os::unix::process::ExitStatusExt;
                 let how = match (out.status.signal(), out.status.code()) {
-                    (Some(s), _) => format!("signal {}", s),
+                    (Some(s), _) if s == libc::SIGPROF => format!("signal {} = more than {} ms of CPU time in this one case, in the form {} (it did not return)", s, CASE_CPU_MS, form),
+                    (Some(s), _) => format!("signal {} in the form {}", s, form),
                     (_, Some(c)) => format!("exit code {}", c),
                     _ => "unknown status".to_string(),
                 };
@@ -758,12 +1004,310 @@ fn run_in_children(cases: &[Value], label: &str) -> Vec<String> {
                 let err = err.trim().lines().next().unwrap_or("").to_string();
                 res[i] = Some(format!("died {} {}", how, vharness::run::truncate(&err, 200)));
                 from = i + 1;
+                deaths += 1;
             }
             _ => machinery(&format!("child ended (status {:?}) without a case in progress; stderr: {}", out.status, String::from_utf8_lossy(&out.stderr))),
         }
     }
     let _ = std::fs::remove_file(&file);
     res.into_iter().map(|r| r.unwrap_or_else(|| machinery("child result missing"))).collect()
+}
+
+// ---------------------------------------------------------------------------------------------
+// kid cycles with fan-out: a node that lists itself (or its partner, or the root) several times,
+// pages before / between / after the cyclic entries, any Count on the nodes of the cycle
+
+const CYC_COUNTS: [&str; 6] = ["absent", "0", "-1", "1", "2^62", "name"];
+
+/// Every string over {P (a fresh page), S (the back edge)} of length 1..=max with at least one S.
+fn cyc_strings(max: usize) -> Vec<String> {
+    let mut out = vec![];
+    for len in 1..=max {
+        for mask in 0u32..(1 << len) {
+            if mask != 0 {
+                out.push((0..len).map(|i| if mask & (1 << i) != 0 { 'S' } else { 'P' }).collect());
+            }
+        }
+    }
+    out
+}
+
+/// catalog 1, root 2, M1 3, (M2 4), then the pages in order of first appearance.
+///   form "self":   root Kids [pre x P, M1, post x P];      M1 Kids = m1 with S -> M1
+///   form "mutual": root Kids [pre x P, M1, post x P];      M1 Kids = m1 with S -> M2;  M2 Kids = m2 with S -> M1
+///   form "root":   root Kids [pre x P, M1, post x P];      M1 Kids = m1 with S -> root (Count variant also on the root)
+/// `count` is the Count of every node on the cycle; `indirect`: their Kids arrays are separate objects.
+fn build_cyc(case: &Value) -> Document {
+    let form = case["form"].as_str().unwrap_or("");
+    let (pre, post) = (case["pre"].as_u64().unwrap_or(0), case["post"].as_u64().unwrap_or(0));
+    let (m1s, m2s) = (case["m1"].as_str().unwrap_or(""), case["m2"].as_str().unwrap_or(""));
+    let count = case["count"].as_str().unwrap_or("absent");
+    let indirect = case["indirect"].as_bool().unwrap_or(false);
+    let (cat, root, m1, m2) = ((1u32, 0u16), (2u32, 0u16), (3u32, 0u16), (4u32, 0u16));
+    let mut doc = Document::with_version("1.5");
+    let mut next = if form == "mutual" { 5u32 } else { 4u32 };
+    let mut fresh = |doc: &mut Document, o: Object| -> ObjectId {
+        let id = (next, 0);
+        next += 1;
+        doc.objects.insert(id, o);
+        id
+    };
+    let page = |parent: ObjectId| {
+        let mut d = Dictionary::new();
+        d.set("Type", name("Page"));
+        d.set("Parent", Object::Reference(parent));
+        Object::Dictionary(d)
+    };
+    let set_count = |d: &mut Dictionary| match count {
+        "absent" => {}
+        "0" => d.set("Count", Object::Integer(0)),
+        "-1" => d.set("Count", Object::Integer(-1)),
+        "1" => d.set("Count", Object::Integer(1)),
+        "2^62" => d.set("Count", Object::Integer(1 << 62)),
+        "name" => d.set("Count", name("Many")),
+        _ => machinery("unknown cyc count"),
+    };
+    let mut c = Dictionary::new();
+    c.set("Type", name("Catalog"));
+    c.set("Pages", Object::Reference(root));
+    doc.objects.insert(cat, Object::Dictionary(c));
+    let mut n_pages = 0i64;
+    // root
+    let mut kids = vec![];
+    for _ in 0..pre {
+        kids.push(Object::Reference(fresh(&mut doc, page(root))));
+        n_pages += 1;
+    }
+    kids.push(Object::Reference(m1));
+    let post_at = kids.len();
+    // cyclic nodes
+    let mut node = |doc: &mut Document, me: ObjectId, parent: ObjectId, pattern: &str, back: ObjectId, n_pages: &mut i64| {
+        let mut kids = vec![];
+        for ch in pattern.chars() {
+            if ch == 'S' {
+                kids.push(Object::Reference(back));
+            } else {
+                kids.push(Object::Reference(fresh(doc, page(me))));
+                *n_pages += 1;
+            }
+        }
+        let mut d = Dictionary::new();
+        d.set("Type", name("Pages"));
+        d.set("Parent", Object::Reference(parent));
+        if indirect {
+            let a = fresh(doc, Object::Array(kids));
+            d.set("Kids", Object::Reference(a));
+        } else {
+            d.set("Kids", Object::Array(kids));
+        }
+        set_count(&mut d);
+        doc.objects.insert(me, Object::Dictionary(d));
+    };
+    match form {
+        "self" => node(&mut doc, m1, root, m1s, m1, &mut n_pages),
+        "mutual" => {
+            node(&mut doc, m1, root, m1s, m2, &mut n_pages);
+            node(&mut doc, m2, m1, m2s, m1, &mut n_pages);
+        }
+        "root" => node(&mut doc, m1, root, m1s, root, &mut n_pages),
+        _ => machinery("unknown cyc form"),
+    }
+    let mut tail = vec![];
+    for _ in 0..post {
+        tail.push(Object::Reference(fresh(&mut doc, page(root))));
+        n_pages += 1;
+    }
+    kids.splice(post_at..post_at, tail);
+    let mut r = Dictionary::new();
+    r.set("Type", name("Pages"));
+    r.set("Kids", Object::Array(kids));
+    if form == "root" {
+        set_count(&mut r);
+    } else {
+        r.set("Count", Object::Integer(n_pages));
+    }
+    doc.objects.insert(root, Object::Dictionary(r));
+    doc.trailer.set("Root", Object::Reference(cat));
+    doc.max_id = doc.objects.keys().map(|k| k.0).max().unwrap_or(0);
+    doc
+}
+
+const CYC_EXPECTED: &str = "on a kid cycle - whatever its fan-out and whatever the Counts say - every form of the enumeration (next() until None, for, size_hint() around every next(), count(), last(), nth(k), collect, Vec::extend, k x next() then collect, get_pages()) returns within the CPU budget, stepping ends within objects.len()+1 calls, every yielded id is the key of a dictionary of /Type /Page in doc.objects, and all forms agree with the step-by-step run";
+
+/// How many children may die per group before the rest of the group is skipped (a change that
+/// makes every such case spin would otherwise cost CASE_CPU_MS for each of thousands of cases).
+const CYC_MAX_DEATHS: usize = 6;
+
+fn explore_cycles(run: &Run) {
+    let mut cases: Vec<Value> = vec![];
+    let maxlen = if run.thorough { 5 } else { 4 };
+    let mutual_len = if run.thorough { 4 } else { 3 };
+    for count in CYC_COUNTS {
+        for pre in 0..2 {
+            for post in 0..2 {
+                for indirect in [false, true] {
+                    for form in ["self", "root"] {
+                        for m1 in cyc_strings(maxlen) {
+                            cases.push(json!({"kind": "cyc", "form": form, "pre": pre, "post": post, "m1": m1, "count": count, "indirect": indirect}));
+                        }
+                    }
+                    for m1 in cyc_strings(mutual_len) {
+                        for m2 in cyc_strings(mutual_len) {
+                            cases.push(json!({"kind": "cyc", "form": "mutual", "pre": pre, "post": post, "m1": m1, "m2": m2, "count": count, "indirect": indirect}));
+                        }
+                    }
+                }
+            }
+        }
+    }
+    // interleave so that every group holds every kind of case
+    let groups_n = 16usize;
+    let groups: Vec<Vec<Value>> = (0..groups_n).map(|g| cases.iter().skip(g).step_by(groups_n).cloned().collect()).collect();
+    let fanout2 = cases.iter().filter(|c| c["m1"].as_str().unwrap_or("").matches('S').count() >= 2 || c["m2"].as_str().unwrap_or("").matches('S').count() >= 2).count();
+    let skipped = AtomicU64::new(0);
+    let yielded_some = AtomicU64::new(0);
+    util::par_for(groups.len(), |g| {
+        let outs = run_in_children(&groups[g], &format!("cyc{}", g), CYC_MAX_DEATHS);
+        let mut ran = 0u64;
+        for (case, out) in groups[g].iter().zip(outs.iter()) {
+            if out == "skipped" {
+                skipped.fetch_add(1, Ordering::Relaxed);
+                continue;
+            }
+            ran += 1;
+            run.nontrivial_hash(run_hash(case));
+            match out.strip_prefix("ok ") {
+                Some(n) => {
+                    if n.trim() != "0" {
+                        yielded_some.fetch_add(1, Ordering::Relaxed);
+                    }
+                }
+                None => run.fail(None, with_doc(case.clone(), &build_cyc(case)), &format!("in a child process: {}", out), CYC_EXPECTED),
+            }
+        }
+        // per case: the step-by-step run + 10 further forms
+        run.eval(ran * (1 + FORMS.len() as u64));
+        run.add("cycle_cases", ran);
+    });
+    run.add("cycle_cases_with_fan_out_2_or_more", fanout2 as u64);
+    run.add("cycle_cases_yielding_pages", yielded_some.load(Ordering::Relaxed));
+    let sk = skipped.load(Ordering::Relaxed);
+    if sk > 0 {
+        run.add("cycle_cases_skipped_after_dead_children", sk);
+        run.cap_hit(&format!("{} kid-cycle cases not run: a group stops after {} children were killed", sk, CYC_MAX_DEATHS));
+    }
+    run.sample(cases[cases.len() / 3].clone());
+}
+
+// ---------------------------------------------------------------------------------------------
+// /Type held behind a reference (legal: any dictionary value may be an indirect reference)
+
+const INDTYPE: &str = "pagetree-indirect-type";
+
+/// Move the /Type of the listed nodes into objects of their own, `hops` references away.
+fn apply_indirect_type(b: &mut Built, nodes: &[usize], hops: usize) {
+    for &i in nodes {
+        let ty = match dict_mut(&mut b.doc, b.node[i]).get(b"Type") {
+            Ok(o) => o.clone(),
+            Err(_) => machinery("node without Type"),
+        };
+        let id = fresh_id(&mut b.doc);
+        b.doc.objects.insert(id, ty);
+        let head = add_chain(&mut b.doc, id, hops - 1);
+        dict_mut(&mut b.doc, b.node[i]).set("Type", Object::Reference(head));
+    }
+}
+
+fn indtype_nodes(t: &Tree, which: &Value) -> Vec<usize> {
+    match which.as_str() {
+        Some("all") => (0..t.len()).collect(),
+        Some("pages_leaves") => (0..t.len()).filter(|i| t.kind[*i] == Kind::Page).collect(),
+        _ => vec![which.as_u64().unwrap_or(0) as usize],
+    }
+}
+
+fn run_indtype(t: &Tree, rev: bool, which: &Value, hops: usize, mc: &AtomicU64) -> Result<(), String> {
+    let mut b = build(t, rev);
+    let want = expected_pages(t, &b);
+    apply_indirect_type(&mut b, &indtype_nodes(t, which), hops);
+    check_valid(&b.doc, &want, mc)
+}
+
+/// Predicate of `pagetree-indirect-type`: the step-by-step enumeration yields exactly the leaves
+/// that remain when every non-root node with an indirect /Type is skipped together with its
+/// subtree (and that is not the full list), every other form agrees with that run, and the same
+/// tree with direct /Type entries passes everything.
+fn indtype_predicate(t: &Tree, rev: bool, which: &Value, doc: &Document) -> bool {
+    let b = build(t, rev);
+    let want = expected_pages(t, &b);
+    let dummy = AtomicU64::new(0);
+    if check_valid(&b.doc, &want, &dummy).is_err() {
+        return false;
+    }
+    let skipped = indtype_nodes(t, which);
+    fn walk(t: &Tree, i: usize, b: &Built, skipped: &[usize], out: &mut Vec<ObjectId>) {
+        if i != 0 && skipped.contains(&i) {
+            return;
+        }
+        if t.kind[i] == Kind::Page {
+            out.push(b.node[i]);
+        } else {
+            for k in &t.kids[i] {
+                walk(t, *k, b, skipped, out);
+            }
+        }
+    }
+    let mut model = vec![];
+    walk(t, 0, &b, &skipped, &mut model);
+    if model == want {
+        return false;
+    }
+    match check_lenient_all(doc, &dummy, true) {
+        Ok(got) => got == model,
+        Err(_) => false,
+    }
+}
+
+const INDTYPE_EXPECTED: &str = "a page tree whose nodes hold /Type behind a reference (`/Type 9 0 R`, 9 0 obj /Page) is the same page tree: page_iter() = depth-first left-to-right Page leaves, get_pages() = that list numbered 1..n, in every form";
+
+fn explore_indirect_type(run: &Run, max_calls: &AtomicU64, watch: &Watch) {
+    let nodes = if run.thorough { 5 } else { 4 };
+    let mut work: Vec<Vec<Option<usize>>> = vec![];
+    for n in (1..=nodes).rev() {
+        work.extend(shapes(n));
+    }
+    let sampled = AtomicU64::new(0);
+    util::par_for(work.len(), |w| {
+        let parent = &work[w];
+        let opts = options(parent);
+        let mut cases = 0u64;
+        for v in 0..n_variants(&opts) {
+            let t = Tree::from_parents(parent, variant(&opts, v));
+            let mut whichs: Vec<Value> = (0..t.len()).map(|i| json!(i)).collect();
+            whichs.push(json!("all"));
+            whichs.push(json!("pages_leaves"));
+            for rev in [false, true] {
+                for which in &whichs {
+                    for hops in [1usize, 2] {
+                        let case = json!({"kind": "indirect_type", "tree": t.to_json(), "rev": rev, "nodes": which, "hops": hops});
+                        cases += 1;
+                        run.nontrivial_hash(run_hash(&case));
+                        if let Err(e) = watch.guarded(&case, || run_indtype(&t, rev, which, hops, max_calls)) {
+                            let mut bb = build(&t, rev);
+                            apply_indirect_type(&mut bb, &indtype_nodes(&t, which), hops);
+                            let finding = if indtype_predicate(&t, rev, which, &bb.doc) { Some(INDTYPE) } else { None };
+                            run.fail(finding, with_doc(case.clone(), &bb.doc), &e, INDTYPE_EXPECTED);
+                        }
+                        if t.len() == 3 && hops == 1 && which == "pages_leaves" && sampled.fetch_add(1, Ordering::Relaxed) < 1 {
+                            run.sample(case);
+                        }
+                    }
+                }
+            }
+        }
+        run.eval(cases * (2 + FORMS.len() as u64));
+        run.add("indirect_type_cases", cases);
+    });
 }
 
 /// Predicate of `pagetree-sizehint-count`: the mutated node is a Pages node that is pending as a
@@ -877,7 +1421,7 @@ fn explore_chains(run: &Run, max_calls: &AtomicU64, watch: &Watch) {
         } else {
             // more pending sibling lists than the documented limit: termination and type safety only
             run.add("chains_beyond_limit", 1);
-            match watch.guarded(&c.to_json(), || check_lenient(&b.doc, max_calls).and_then(|got| check_get_pages_lenient(&b.doc).map(|_| got))) {
+            match watch.guarded(&c.to_json(), || check_lenient_all(&b.doc, max_calls, true).and_then(|got| check_get_pages_lenient(&b.doc).map(|_| got))) {
                 Ok(got) => beyond.lock().unwrap().push(json!({"chain": c.to_json(), "pages_in_tree": want.len(), "pages_yielded": got.len()})),
                 Err(e) => run.fail(None, c.to_json(), &e, "terminates within objects.len()+1 calls and yields only page objects"),
             }
@@ -1055,7 +1599,7 @@ fn fresh_copy(doc: &Document) -> Document {
 
 /// check_valid on `doc` plus agreement of get_pages() with a history-free copy of the same document.
 fn check_now(doc: &Document, want: &[ObjectId], what: &str, max_calls: &AtomicU64) -> Result<(), String> {
-    check_valid(doc, want, max_calls).map_err(|e| format!("{}: {}", what, e))?;
+    check_valid_basic(doc, want, max_calls).map_err(|e| format!("{}: {}", what, e))?;
     let fresh = fresh_copy(doc);
     let (a, b) = (util::guard(|| doc.get_pages()), util::guard(|| fresh.get_pages()));
     if a != b {
@@ -1769,6 +2313,7 @@ fn check_valid_chained(doc: &Document, want: &[ObjectId], chained: bool, max_cal
     if got != want {
         return Err(format!("page_iter yields {} which denote {}, depth-first left-to-right leaf pages are {}", ids_str(&d.yielded), ids_str(&got), ids_str(want)));
     }
+    check_forms(doc, &d.yielded, true, true, &|_| {})?;
     let m = util::guard(|| doc.get_pages()).map_err(|e| format!("get_pages: {}", e))?;
     let keys: Vec<u32> = m.keys().cloned().collect();
     let vals: Vec<ObjectId> = m.values().map(|id| resolve_id(doc, *id)).collect();
@@ -1918,8 +2463,9 @@ fn explore_malformed(run: &Run, b: &Bounds, max_calls: &AtomicU64, watch: &Watch
                     }
                     let case = tree_case(&t, rev, Some(m));
                     let extreme = is_count_extreme(m);
+                    // an extreme Count: the collecting forms run in a child process only
                     let res = watch.guarded(&case, || {
-                        let r = check_lenient(&bt.doc, max_calls).map(|_| ());
+                        let r = check_lenient_all(&bt.doc, max_calls, !extreme).map(|_| ());
                         if r.is_ok() && !extreme {
                             check_get_pages_lenient(&bt.doc).map(|_| ())
                         } else {
@@ -1953,7 +2499,7 @@ fn explore_malformed(run: &Run, b: &Bounds, max_calls: &AtomicU64, watch: &Watch
     let predicted = AtomicU64::new(0);
     util::par_for(groups.len(), |g| {
         let cases: Vec<Value> = groups[g].iter().map(|c| c.1.clone()).collect();
-        let outs = run_in_children(&cases, &format!("g{}", g));
+        let outs = run_in_children(&cases, &format!("g{}", g), usize::MAX);
         run.eval(cases.len() as u64);
         for ((_, case, t), out) in groups[g].iter().zip(outs.iter()) {
             let (doc, _) = doc_of_case(case);
@@ -2021,7 +2567,7 @@ fn replay(run: &Run, path: &std::path::Path) -> ! {
             if c.max_pending() <= LIMIT {
                 say("valid chain", check_valid(&b.doc, &want, &dummy).map(|_| format!("{} pages in depth-first order", want.len())));
             } else {
-                say("chain beyond the limit", check_lenient(&b.doc, &dummy).and_then(|g| check_get_pages_lenient(&b.doc).map(|_| format!("terminates, {} of {} pages yielded", g.len(), want.len()))));
+                say("chain beyond the limit", check_lenient_all(&b.doc, &dummy, true).and_then(|g| check_get_pages_lenient(&b.doc).map(|_| format!("terminates, {} of {} pages yielded", g.len(), want.len()))));
             }
         }
         Some("tree") => {
@@ -2032,11 +2578,11 @@ fn replay(run: &Run, path: &std::path::Path) -> ! {
                 let want = expected_pages(&t, &b);
                 say("valid tree", check_valid(&doc, &want, &dummy).map(|_| format!("pages {}", ids_str(&want))));
             } else {
-                say("page_iter on malformed tree", check_lenient(&doc, &dummy).map(|g| format!("terminates, yields {}", ids_str(&g))));
+                say("page_iter on malformed tree, every form", check_lenient_all(&doc, &dummy, !is_count_extreme(&case["mutation"])).map(|g| format!("terminates, yields {}", ids_str(&g))));
                 if is_count_extreme(&case["mutation"]) {
-                    let outs = run_in_children(&[case.clone()], "replay");
+                    let outs = run_in_children(&[case.clone()], "replay", usize::MAX);
                     let r = if outs[0].starts_with("ok ") { Ok(outs[0].clone()) } else { Err(outs[0].clone()) };
-                    say("get_pages in a child process", r);
+                    say("every form in a child process", r);
                     println!("pending-sibling predicate of {}: {}", SIZEHINT, sizehint_predicate(&t, &case["mutation"], doc.objects.len()));
                 } else {
                     say("get_pages on malformed tree", check_get_pages_lenient(&doc).map(|m| format!("{:?}", m)));
@@ -2083,6 +2629,23 @@ fn replay(run: &Run, path: &std::path::Path) -> ! {
                 run_refchain(&t, rev, &site, hops, &dummy).map(|exact| if exact { "same enumeration as with direct links".to_string() } else { "beyond the dereference limit: terminates, yields only pages (no verdict on the enumeration)".to_string() }),
             );
         }
+        Some("cyc") => {
+            let outs = run_in_children(&[case.clone()], "replay", usize::MAX);
+            let r = if outs[0].starts_with("ok ") { Ok(format!("every form returns and agrees; pages yielded: {}", &outs[0][3..])) } else { Err(outs[0].clone()) };
+            say("kid cycle, every form of the enumeration in a child process", r);
+        }
+        Some("indirect_type") => {
+            let t = Tree::from_json(&case["tree"]);
+            let rev = case["rev"].as_bool().unwrap_or(false);
+            let hops = case["hops"].as_u64().unwrap_or(1) as usize;
+            let r = run_indtype(&t, rev, &case["nodes"], hops, &dummy);
+            if r.is_err() {
+                let mut bb = build(&t, rev);
+                apply_indirect_type(&mut bb, &indtype_nodes(&t, &case["nodes"]), hops);
+                println!("predicate of {}: {}", INDTYPE, indtype_predicate(&t, rev, &case["nodes"], &bb.doc));
+            }
+            say(&format!("/Type of node(s) {} behind {} reference hop(s)", case["nodes"], hops), r.map(|_| "same enumeration as with direct /Type entries".to_string()));
+        }
         _ => machinery("unknown replay kind"),
     }
     run.finish_replay(failed)
@@ -2128,15 +2691,32 @@ fn main() {
          renumbering followed by a field edit). Reference chains: every valid tree with <= {} nodes x ids ascending/reversed x every link (each Kids value, \
          each kid entry, each Count, each Parent, the catalog's Pages, the trailer's Root, all links at once, all kid entries at once) reached through \
          h hops of bare-reference objects, h in {{0,1,2,3,16,64,126,127,128}} with an exact verdict (also on a clone) and 129 (thorough: 130, 131, 200, 300) \
-         without one; distinct by construction",
+         without one; distinct by construction. \
+         FORMS: in the valid, chain, wide, malformed, reference-chain, indirect-Type and kid-cycle families every document is enumerated step by step with next() and then through \
+         every other form a caller uses - for, size_hint() before and after every next() (well-formed trees: it must enclose the number of pages still to come), count(), last(), \
+         nth(k) for every k in 0..=n+1 (n > 40: 8 positions), nth(1) repeated on one iterator, collect::<Vec>, Vec::extend, k x next() then collect for k in {{1, 2, n/2, n-1}}, \
+         get_pages(), next() twice after None - and every form must agree with the step-by-step run (history and edit families: next() and get_pages() only). \
+         Malformed additions: a kid (inserted at every position / replacing every kid) that is a reference with the RIGHT object number and a generation no object has - to every node of \
+         the tree (a page, a Pages node, the node itself, an ancestor, the replaced kid under generations 1, 2, 65535) and to the catalog; a kid that is a node of another subtree (a node \
+         with two parents); Parent of every node missing / itself / the root / the first page / the catalog / dangling / wrong generation / an integer. Every yielded id is looked up in \
+         doc.objects directly (key present and a dictionary whose /Type is the name Page), never through the document's own lookup functions. \
+         Indirect /Type: every valid tree with <= {} nodes x ids ascending/reversed x the /Type of each single node, of all nodes, of all leaf pages moved into an object of its own \
+         1 or 2 reference hops away - exact verdict. Kid cycles with fan-out (every case in a child process of this binary, each case under a CPU budget of {} ms and RLIMIT_AS 2 GiB): \
+         root Kids = [0..1 pages, M1, 0..1 pages]; M1 Kids = every string over {{fresh page, back edge}} of length 1..{} with at least one back edge, the back edge pointing to M1 itself / \
+         to the root / to a partner M2 whose Kids is again every such string (length <= {}) with back edges to M1; Count of every node on the cycle in {{absent, 0, -1, 1, 2^62, a name}}; \
+         Kids arrays direct / separate objects",
         b.valid_nodes, b.mutated_nodes,
-        if run.thorough { 4 } else { 3 }, if run.thorough { 5 } else { 4 }, if run.thorough { 6 } else { 5 }, if run.thorough { 5 } else { 4 }
+        if run.thorough { 4 } else { 3 }, if run.thorough { 5 } else { 4 }, if run.thorough { 6 } else { 5 }, if run.thorough { 5 } else { 4 },
+        if run.thorough { 5 } else { 4 }, CASE_CPU_MS, if run.thorough { 5 } else { 4 }, if run.thorough { 4 } else { 3 }
     ));
+    run.assume("a case of the kid-cycle family (and get_pages()/collect on a tree with an extreme Count) that uses more than its CPU budget in a child process is reported as not terminating: the unchanged tree needs microseconds for such a case, the budget is 500 ms of CPU time (not wall time), and the replay runs the same child");
+    run.assume("any dictionary value may be an indirect reference (ISO 32000-1 7.3.10), so a node whose /Type is `9 0 R` with `9 0 obj /Page` is a page: the indirect-Type family demands the full enumeration (open finding pagetree-indirect-type)");
+    run.assume("size_hint() is part of the enumeration's interface: on a well-formed tree with correct Counts its bounds must enclose the number of pages still to come at every step; on malformed trees it only has to return with lower <= upper");
     run.assume("lopdf follows a chain of at most Document::DEREF_LIMIT = 128 reference hops (the hops counted by Document::dereference: for a Kids or Count value from the value itself, for a kid entry / Pages / Root from the object the entry names); observed on this build: 128 hops enumerate fully and 129 do not, at every kind of link (recorded under largest_hop_count_with_full_enumeration_observed). A tree with a longer chain is outside the domain: it is counted, and only termination and type safety are demanded");
     run.assume("an id whose object is a chain of bare references ending at a Page dictionary denotes that page (ISO 32000-1 7.3.10: a reference stands for the object it names; Document::get_object resolves it): when a kid ENTRY is such a chain, page_iter()/get_pages() may yield the entry's id or the page's own id");
     run.assume("history and edit families: the reference after an edit is a depth-first walk written in the harness over the public objects/trailer maps (cross-checked against the tree-level model before every edit), and get_pages() of a Document assembled from scratch out of the same objects and trailer");
     run.assume("valid = every node typed, Kids arrays of references to tree nodes, at most 256 sibling lists pending at once (PAGE_TREE_DEPTH_LIMIT bounds the code's stack of pending sibling lists); beyond that and for malformed trees only termination within objects.len()+1 calls of next(), type safety of the yielded ids and absence of panics are demanded");
-    run.assume("get_pages() on a tree with an extreme /Count is executed only in child processes of this binary under RLIMIT_AS = 2 GiB; an abort, signal or non-zero exit of the child is the failing outcome");
+    run.assume("the collecting forms (collect, extend, get_pages) on a tree with an extreme /Count are executed only in child processes of this binary under RLIMIT_AS = 2 GiB; an abort, signal or non-zero exit of the child is the failing outcome");
     run.assume("/Count is correct in valid trees; the root of the tree is always a Pages node");
     let max_calls = AtomicU64::new(0);
     let watch = Watch::new();
@@ -2154,6 +2734,9 @@ fn main() {
         explore_edits(&run, &max_calls, &watch);
         run.set("wall_after_edits_s", json!((run.elapsed() * 10.0).round() / 10.0));
         explore_refchains(&run, &max_calls, &watch);
+        run.set("wall_after_refchains_s", json!((run.elapsed() * 10.0).round() / 10.0));
+        explore_indirect_type(&run, &max_calls, &watch);
+        explore_cycles(&run);
         watch.done.store(true, Ordering::SeqCst);
     });
     run.set("max_next_calls", json!(max_calls.load(Ordering::Relaxed)));
